@@ -777,7 +777,25 @@ pub fn unicode_contexts(c: char) -> Vec<String> {
 pub fn c11(cx: &Ctx) -> Report {
     let tier = cx.tier;
     let specials: Vec<char> = if tier == Tier::Quick { special_chars() } else { ('\0'..=char::MAX).collect() };
-    let mut rep = for_subjects(cx, "C11", |d| d.chain_idempotent() && d.inner != Inner::Cow, |i, d, s, r| {
+    // in scope: built-in sanitizers only, or custom ones that are idempotent AND whose whole chain is idempotent
+    // under the reference semantics on the complete input domain (a chain of idempotent functions need not be:
+    // `trim, with = strip_x` maps " x a" to " a" and then to "a")
+    let tier_ = cx.tier;
+    let in_scope = move |d: &Decl| -> bool {
+        if d.inner == Inner::Cow {
+            return false;
+        }
+        if d.chain_idempotent() {
+            return true;
+        }
+        let customs_idempotent = d.sans.iter().all(|x| if let San::With(f, _) = x { f.idempotent() } else { true });
+        customs_idempotent
+            && domain::domain(d, tier_).iter().all(|raw| {
+                let once = refsem::sanitize(d, raw);
+                refsem::sanitize(d, &once) == once
+            })
+    };
+    let mut rep = for_subjects(cx, "C11", in_scope, |i, d, s, r| {
         let dom = domain::domain(d, tier);
         // initial states: everything the constructor accepts on the C01 domain
         let mut init: BTreeSet<Val> = BTreeSet::new();
@@ -813,6 +831,26 @@ pub fn c11(cx: &Ctx) -> Report {
                 }
             }
             r.hist("unicode-context-sweeps", 1);
+        }
+        // Arbitrary is one more way to obtain a value: whatever it returns must be canonical too
+        // (only where idempotence of the chain does not rest on the bounded domain: the generator draws
+        // characters outside it)
+        if d.derives(Tr::Arbitrary) && crate::explore2::c09_in_scope(d) && d.chain_idempotent() {
+            let mut seen: HashSet<Val> = HashSet::new();
+            for b in crate::explore2::arbitrary_inputs(d, tier) {
+                r.evaluations += 1;
+                if let (Outcome::Ok(v), _) = s.arbitrary(&b) {
+                    if !seen.insert(v.clone()) {
+                        continue;
+                    }
+                    let again = s.construct(&v);
+                    r.transitions += 1;
+                    if again != Outcome::Ok(v.clone()) {
+                        r.violate(mkviol("C11", i, d, "Arbitrary->into_inner->try_new", format!("{} bytes -> {}", b.len(), v.show()), format!("Ok({})", v.show()), again.show(), "not-canonical"));
+                    }
+                }
+            }
+            r.hist("arbitrary-entry-sweeps", 1);
         }
         let mut visited: HashSet<Val> = HashSet::new();
         let mut frontier: Vec<(Val, u32, String)> = init.iter().map(|v| (v.clone(), 0u32, String::new())).collect();
@@ -1081,6 +1119,40 @@ pub fn c13(cx: &Ctx) -> Report {
                     match (c, pcmp(a, b)) {
                         (Ok(x), Some(y)) if *x == y => {}
                         (other, w) => r.violate(mkviol("C13", i, d, "Ord", format!("{} ? {}", a.show(), b.show()), format!("{w:?}"), format!("{other:?}"), "cmp-differs")),
+                    }
+                }
+                if let Some(ops) = &o.ops {
+                    r.transitions += 1;
+                    use std::cmp::Ordering::*;
+                    let pc = pcmp(a, b);
+                    let want = [pc == Some(Less), matches!(pc, Some(Less) | Some(Equal)), pc == Some(Greater), matches!(pc, Some(Greater) | Some(Equal))];
+                    match ops {
+                        Ok(x) if *x == want => {}
+                        other => r.violate(mkviol("C13", i, d, "PartialOrd operators [<, <=, >, >=]", format!("{} ? {}", a.show(), b.show()), format!("{want:?}"), format!("{other:?}"), "operators-differ")),
+                    }
+                }
+                if let Some(mm) = &o.maxmin {
+                    r.transitions += 1;
+                    // std: `max` returns the second argument unless the first is greater; `min` the first unless the second is less
+                    let pc = pcmp(a, b);
+                    let want = [if pc == Some(std::cmp::Ordering::Greater) { a.clone() } else { b.clone() }, if pc == Some(std::cmp::Ordering::Greater) { b.clone() } else { a.clone() }];
+                    match mm {
+                        Ok(x) if *x == want => {}
+                        other => r.violate(mkviol("C13", i, d, "Ord::max / Ord::min", format!("{} , {}", a.show(), b.show()), format!("[{}, {}]", want[0].show(), want[1].show()), format!("{other:?}").chars().take(200).collect(), "max-min-differ")),
+                    }
+                }
+                if let Some(cf) = &o.clone_from {
+                    r.transitions += 1;
+                    match cf {
+                        Ok(x) if x == b => {}
+                        other => r.violate(mkviol("C13", i, d, "Clone::clone_from", format!("{} <- {}", a.show(), b.show()), b.show(), format!("{other:?}").chars().take(200).collect(), "clone_from-differs")),
+                    }
+                }
+                if let Some(ne) = &o.ne {
+                    r.transitions += 1;
+                    match ne {
+                        Ok(x) if *x == !want_eq => {}
+                        other => r.violate(mkviol("C13", i, d, "PartialEq::ne", format!("{} != {}", a.show(), b.show()), format!("{}", !want_eq), format!("{other:?}"), "ne-differs")),
                     }
                 }
             }
